@@ -95,6 +95,14 @@ def gen(seed, tier):
             for o in outs:
                 if not o["flow_freely"] and not any(o["drivers"]):
                     o["drivers"][0] = True
+        # the `outputs` argument may name a strict subset of `mailboxes`: the last mailbox then has a sender of its
+        # own (as a loaded output has in the processor) sending `own_n` messages, and the divider must leave it alone
+        w["own_n"] = None
+        if r.random() < 0.3:
+            outs[-1]["flow_freely"] = False
+            if not any(outs[-1]["drivers"]):
+                outs[-1]["drivers"][0] = True
+            w["own_n"] = r.randint(0, n_msg + 3)
         w["outs"] = outs
         w["main_reads"] = False
         w["start_order"] = r.sample(range(n_out + 1), n_out + 1)
@@ -132,7 +140,9 @@ def shrink(w):
         yield dict(w, numbering=None)
     if w.get("late") and any(l is not None for l in w["late"]):
         yield dict(w, late=[None] * len(w["late"]))
-    if w["mode"] == "divide" and len(w["outs"]) > 2:
+    if w["mode"] == "divide" and w.get("own_n") is not None:
+        yield dict(w, own_n=None)
+    elif w["mode"] == "divide" and len(w["outs"]) > 2:
         c = dict(w, outs=w["outs"][:-1])
         c["start_order"] = [x for x in w["start_order"] if x < len(c["outs"]) + 1]
         if not (w["lazy"] and all(o["flow_freely"] for o in c["outs"])):
@@ -279,8 +289,17 @@ def _body(w, sim, rec):
                 yield {d: ("x", d, i) for d in outs}
         m0.add_sender(source())
         ff = tuple(f"o{i}" for i, o in enumerate(w["outs"]) if o["flow_freely"])
+        divided = tuple(outs)
+        if w.get("own_n") is not None:
+            divided = divided[:-1]
+            own = tuple(outs)[-1]
+
+            def own_source():
+                for i in range(w["own_n"]):
+                    yield ("x", own, i)
+            outs[own].add_sender(own_source(), name="own_sender")
         m0.add_reader(partial(strax.divide_outputs, lazy=lazy, mailboxes=outs, flow_freely=ff,
-                              outputs=tuple(outs)))
+                              outputs=divided))
         for i, o in enumerate(w["outs"]):
             for j in range(o["n_sub"]):
                 outs[f"o{i}"].add_reader(make_reader(f"o{i}.s{j}", o["work"][j]), can_drive=o["drivers"][j])
@@ -335,7 +354,10 @@ def execute(w, seed, strategy="random", forced=None, strict=False):
         if w["mode"] == "divide":
             for key, got in sorted(rec["got"].items()):
                 d = key.split(".")[0]
-                exp = [("x", d, i) for i in range(w["n_msg"])]
+                n_exp = w["n_msg"]
+                if w.get("own_n") is not None and d == f"o{len(w['outs']) - 1}":
+                    n_exp = w["own_n"]
+                exp = [("x", d, i) for i in range(n_exp)]
                 if got != exp:
                     vio = _delivery_violation(key, got, exp)
                     break
